@@ -39,7 +39,22 @@ def cases(draw, tier, wide=False):
         det = [draw(st.sampled_from([0, 1, None, None, None])) for _ in range(n)]
         free = [q for q in range(n) if det[q] is None]
     ops = [{"g": "X", "p": [], "mods": [], "q": [q]} for q in range(n) if det[q] == 1]
+    det = list(det)
+    n_swaps = 0
     for _ in range(draw(st.integers(0, 5))):
+        if n >= 2 and draw(st.integers(0, 3)) == 0:
+            # routing: a SWAP between any two qubits (deterministic or not) exchanges their roles; chains of SWAPs that
+            # share a qubit compose to cyclic relabellings
+            a, b = draw(st.permutations(list(range(n))))[:2]
+            if n_swaps and draw(st.booleans()):
+                a = ops[-1]["q"][1] if ops[-1]["g"] == "SWAP" and not ops[-1]["mods"] and len(ops[-1]["q"]) == 2 else a
+                if a == b:
+                    b = (a + 1) % n
+            ops.append({"g": "SWAP", "p": [], "mods": [], "q": [a, b]})
+            det[a], det[b] = det[b], det[a]
+            free = [q for q in range(n) if det[q] is None][:4] if wide else [q for q in range(n) if det[q] is None]
+            n_swaps += 1
+            continue
         if not free:
             break
         if len(free) >= 3 and draw(st.integers(0, 2)) == 0:
@@ -67,11 +82,20 @@ def cases(draw, tier, wide=False):
         ops.insert(draw(st.integers(0, len(ops))), g)
     # operators
     zterms = []
+    small_support = draw(st.booleans())  # operators touching only a few qubits (each in its own term) as well as dense ones
     for _ in range(draw(st.integers(1, 4))):
-        qs = draw(st.lists(st.integers(0, n - 1), unique=True, max_size=n))
+        qs = draw(st.lists(st.integers(0, n - 1), unique=True, max_size=(1 if small_support else n)))
         zterms.append({"ops": [[q, "Z"] for q in sorted(qs)], "c": draw(pgen.coefs(zero=False, kinds=("int", "float")))})
     gterms = draw(st.lists(pgen.terms(max_q=n, zero=False), min_size=1, max_size=3))
+    # operators that touch only two or three (deterministic) qubits, each in a term of its own
+    dqs = [q for q in range(n) if det[q] is not None]
+    zsmall = []
+    if len(dqs) >= 2:
+        for _ in range(6 if wide else 2):
+            qs = draw(st.permutations(dqs))[: draw(st.integers(2, min(3, len(dqs))))]
+            zsmall.append([[int(q), c] for q, c in zip(qs, [2, 3, 5])])
     return {
+        "zsmall": zsmall, "det_final": det,
         "n": n, "det": det, "ops": ops, "seed": draw(st.integers(0, 2 ** 31 - 1)),
         "ns_small": draw(st.integers(1, max(1, 2 ** n - 1))),
         "ns_large": draw(st.integers(2 ** n + 1, (4 * 2 ** n + 3) if not wide else 2 ** n + 40)),
@@ -88,7 +112,7 @@ def oracle(spec):
     from orquestra.quantum.operators import PauliSum, PauliTerm, get_expectation_value
     from orquestra.quantum.runners import SymbolicSimulator
 
-    n, det = spec["n"], spec["det"]
+    n, det = spec["n"], spec.get("det_final", spec["det"])
     c = Circuit([cgen.build_gate(o)(*o["q"]) for o in spec["ops"]], n)
     psi = np.zeros(2 ** n, dtype=complex)
     psi[0] = 1
@@ -164,6 +188,15 @@ def oracle(spec):
             ev = must(lambda: m.get_expectation_values(PauliSum(terms)), "Measurements.get_expectation_values")
             for got, want in zip(ev.values, vals):
                 require(abs(got - want) <= 1e-12 * max(1, abs(want)), lambda: f"{regime}: measured expectation {got} != coefficient*eigenvalue {want} on deterministic qubits")
+        for small in spec.get("zsmall", []):
+            op = PauliSum([PauliTerm({q: "Z"}, cf) for q, cf in small])
+            ev = must(lambda: m.get_expectation_values(op), "Measurements.get_expectation_values (few-qubit operator)")
+            want = [cf * (1 - 2 * det[q]) for q, cf in small]
+            require(all(abs(g_ - w_) <= 1e-12 for g_, w_ in zip(ev.values, want)) and len(ev.values) == len(want),
+                    lambda: f"{regime}: measured expectation values {list(ev.values)} of {op!r} != coefficient*eigenvalue {want} (deterministic bits {det})")
+            if regime == "small":
+                ex = must(lambda: sim.get_exact_expectation_values(c, op), "get_exact_expectation_values (few-qubit operator)")
+                require(abs(ex - sum(want)) <= 1e-9 * 10, lambda: f"exact expectation {ex} of {op!r} != {sum(want)}")
     pattern = [det[q] for q in range(n)]
     nontrivial = n >= 2 and any(x is not None for x in pattern) and pattern != pattern[::-1]
     cl = ["small_sample_branch", "large_sample_branch"]
@@ -175,6 +208,11 @@ def oracle(spec):
             cl.append("three_qubit_gate_cyclic_order")
     if n >= 9:
         cl.append("width>=9")
+    if n >= 9 and any(max(q for q, _ in small) >= 8 for small in spec.get("zsmall", [])):
+        cl.append("few_qubit_operator_reaching_qubit>=8")
+    swaps = [o["q"] for o in spec["ops"] if o["g"] == "SWAP" and not o["mods"]]
+    if any(set(x) & set(y) and set(x) != set(y) for x, y in zip(swaps, swaps[1:])):
+        cl.append("swap_chain")
     used = [q for o in spec["ops"] if o["g"] not in ("I", "Delay") for q in o["q"]]
     if any(o["g"] in ("I", "Delay") for o in spec["ops"]) and (not used or max(used) < n - 1):
         cl.append("top_qubit_idle_or_identity_only")
